@@ -101,6 +101,7 @@ func (f *Chip) verifyMerkleProofToCapWithCapIndex(
 	merkleCap variables.FriMerkleCap,
 	proof *variables.FriMerkleProof,
 ) {
+	verifEvent(f.api, "merkle", leafData, leafIndexBits, capIndexBits, merkleCap, proof.Siblings)
 	currentDigest := f.poseidonBN254Chip.HashOrNoop(leafData)
 	for i, sibling := range proof.Siblings {
 		bit := leafIndexBits[i]
@@ -396,6 +397,7 @@ func (f *Chip) verifyQueryRound(
 ) {
 	// Note assertNoncanonicalIndicesOK does not add any constraints, it's a sanity check on the config
 	assertNoncanonicalIndicesOK(*f.friParams)
+	verifEvent(f.api, "round", xIndex.Limb)
 
 	xIndex = f.gl.Reduce(xIndex)
 	xIndexBits := f.api.ToBinary(xIndex.Limb, 64)[0 : f.friParams.DegreeBits+f.friParams.Config.RateBits]
@@ -457,6 +459,7 @@ func (f *Chip) verifyQueryRound(
 			leafLookups[3],
 		)
 
+		verifEvent(f.api, "consistency", i)
 		f.gl.AssertIsEqual(newEval[0], oldEval[0])
 		f.gl.AssertIsEqual(newEval[1], oldEval[1])
 
@@ -493,6 +496,7 @@ func (f *Chip) verifyQueryRound(
 	subgroupX_QE = subgroupX.ToQuadraticExtension()
 	finalPolyEval := f.finalPolyEval(proof.FinalPoly, subgroupX_QE)
 
+	verifEvent(f.api, "final")
 	f.gl.AssertIsEqual(oldEval[0], finalPolyEval[0])
 	f.gl.AssertIsEqual(oldEval[1], finalPolyEval[1])
 }
@@ -506,6 +510,7 @@ func (f *Chip) VerifyFriProof(
 ) {
 	// Not adding any constraints but a sanity check on the proof shape matching the friParams (constant).
 	validateFriProofShape(friProof, instance, f.friParams)
+	verifEvent(f.api, "pow", friChallenges.FriPowResponse.Limb, int(f.friParams.Config.ProofOfWorkBits))
 
 	// Check POW
 	f.assertLeadingZeros(friChallenges.FriPowResponse, f.friParams.Config)
